@@ -11,6 +11,7 @@ import (
 	"io"
 	"os"
 	"reflect"
+	"runtime/debug"
 	"sort"
 	"strings"
 	"time"
@@ -170,6 +171,8 @@ func semStmt(s N, ind string) string {
 		return ind + s["n"].(string) + " = " + semExpr(s["e"].(N)) + "\n"
 	case "cmp":
 		return ind + s["n"].(string) + " " + s["op"].(string) + "= " + semExpr(s["e"].(N)) + "\n"
+	case "cmpi":
+		return ind + semExpr(s["t"].(N)) + "[" + semExpr(s["i"].(N)) + "] " + s["op"].(string) + "= " + semExpr(s["e"].(N)) + "\n"
 	case "asgi":
 		return ind + semExpr(s["t"].(N)) + "[" + semExpr(s["i"].(N)) + "] = " + semExpr(s["e"].(N)) + "\n"
 	case "asgs":
@@ -589,6 +592,8 @@ func moduleMapOf(p semProg) *ugo.ModuleMap {
 
 // watchedRun runs the VM; every program of the families terminates within milliseconds, so a run that is
 // still going after 10 s is stopped (Abort, repeatedly) and reported as an error of its own kind.
+var semTimeouts int // runs stopped by the watchdog so far (only the replaying goroutine counts)
+
 func watchedRun(vm *ugo.VM, g ugo.Object, args []ugo.Object) (ugo.Object, error) {
 	type res struct {
 		o ugo.Object
@@ -620,6 +625,7 @@ func watchedRun(vm *ugo.VM, g ugo.Object, args []ugo.Object) (ugo.Object, error)
 			case <-time.After(time.Millisecond):
 			}
 		}
+		semTimeouts++
 		return nil, fmt.Errorf("TIMEOUT: the run did not end within 10 s")
 	}
 }
@@ -876,10 +882,24 @@ func init() {
 			}
 			off = int(seed()) % every
 		}
+		marker := os.Getenv("VH_SEM_MARKER")
+		if marker != "" {
+			// a compiler that recurses without end is stopped at 256 MB of stack instead of Go's 1 GB
+			debug.SetMaxStack(256 << 20)
+		}
 		return readCases(args[0], func(raw []byte) error {
 			var c semCase
 			if err := json.Unmarshal(raw, &c); err != nil {
 				return err
+			}
+			if marker != "" {
+				// what is being compiled and run, for the case that the process does not survive it
+				mb, _ := json.Marshal(N{"id": c.ID, "src": semSource(c.Prog.Body, true)})
+				os.WriteFile(marker, mb, 0o644)
+			}
+			if semTimeouts >= 8 {
+				// eight programs that never end are verdict enough: the rest of the family is not run
+				return nil
 			}
 			src := semSource(c.Prog.Body, true)
 			want := semExpected(c.Exp)
